@@ -651,6 +651,14 @@ func propC03(run *Run, n int) {
 			}
 			addC03Case(run, t, joinHunks(sub))
 		}
+		if r.Chance(1, 6) {
+			// a hand-edited diff of TWO hunks on the same array: first a list edit inside it, then a hunk that replaces
+			// the array as a whole value — declaring the array as it was BEFORE the first hunk (stale: must be
+			// rejected), as it is after it (applies), or nothing at all (add-only on an existing value: rejected)
+			t, hw := staleReplaceDiff(r)
+			run.Count("hunk:edit-then-whole-array-replacement")
+			addC03Case(run, t, hw)
+		}
 		if r.Chance(1, 3) {
 			// hand-written / hand-extended hunks: SEVERAL lines of before and after context (the reader accepts any
 			// number, doc/v2.md describes adding more), taken from the target or deliberately wrong
@@ -659,6 +667,47 @@ func propC03(run *Run, n int) {
 			addC03Case(run, t, hw)
 		}
 	}
+}
+
+func staleReplaceDiff(r *Rng) (*Val, string) {
+	n := 2 + r.Intn(3)
+	xs := []*Val{}
+	for j := 0; j < n; j++ {
+		xs = append(xs, VNum(float64(j+1)))
+	}
+	i := r.Intn(n)
+	before, after := VVoid(), VVoid()
+	if i > 0 {
+		before = xs[i-1].Clone()
+	}
+	if i+1 < n {
+		after = xs[i+1].Clone()
+	}
+	ys := cloneAll(xs)
+	ys[i] = VNum(9)
+	var declared string
+	switch r.Intn(4) {
+	case 0:
+		declared = VArr(cloneAll(xs)...).Wire() // stale
+	case 1:
+		declared = VArr(ys...).Wire() // current
+	case 2:
+		declared = "" // add-only
+	default:
+		declared = VArr(VNum(0)).Wire()
+	}
+	arr := VArr(xs...)
+	var t *Val = arr
+	pre := ""
+	switch r.Intn(3) {
+	case 0:
+		t, pre = VObj("a", arr), "K\"61 "
+	case 1:
+		t, pre = VArr(VStr("h"), arr), "I1 "
+	}
+	h1 := fmt.Sprintf("( s %sI%d | %s | %s | #4022000000000000 | %s )", pre, i, before.Wire(), xs[i].Wire(), after.Wire())
+	h2 := fmt.Sprintf("( s %s| | %s | \"78 | )", pre, declared)
+	return t, joinHunks([]string{strings.Join(strings.Fields(h1), " "), strings.Join(strings.Fields(h2), " ")})
 }
 
 // handListHunk: a target holding an array (at the root, below a key, or inside an outer array) and ONE strict
